@@ -252,6 +252,8 @@ def build_chm(entries, leaves, style="set", wrap=None, falses=()):
         if traced == "shadow":
             # a valid value OR-ed in *behind* an already constrained address: the
             # earlier (left) operand wins, whatever the encoding of its flag
+            if style in ("arrayidx", "slice", "vmapped") and any(isinstance(c, int) for c in a):
+                continue  # array-indexed entries and a scalar-indexed one do not share a structure
             m = junk
         else:
             flag = jnp.asarray(False) if traced else False
